@@ -1,7 +1,7 @@
 PROP = {'id': 'C16',
  'level': 'proof',
  'functions': ['JobSubmitter.submit_jobs', 'JobSubmitter._handle_completion', 'JobRunner.run_jobs_v', 'JobRunner._run_jobs', 'Cluster.mark_complete'],
- 'native': ['JobSubmitter._handle_completion'],
+ 'native': ['JobSubmitter._handle_completion', 'JobRunner.run_jobs_v', 'HpcSubmitter.run'],
  'records': ['JobSubmitter', 'JobRunner', 'JobConfiguration', 'Cluster'],
  'min_obligations': 500,
  'assumptions': ['ghost event log: the boundary contracts of write_results_summary, run_command / check_run_command (with env), Cluster.mark_complete and '
@@ -17,4 +17,5 @@ PROP = {'id': 'C16',
  'explanation': 'submit_jobs runs the setup command exactly when the submission is new and configures one, once, before anything is handed over (ghost.runs '
                 'unchanged at that point); _handle_completion logs summary, then teardown (iff configured, independent of results), then the completion flag; '
                 'run_jobs runs node setup strictly before and node teardown strictly after the batch, with JADE_RUNTIME_OUTPUT and JADE_SUBMISSION_GROUP in '
-                'the environment, and returns the batch status whatever the teardown status; attribute-safety obligations cover every attribute read (F3).'}
+                'the environment, and returns the batch status whatever the teardown status; attribute-safety obligations cover every attribute read (F3).',
+ 'native_budget': {'quick': 40, 'thorough': 300}}
